@@ -148,6 +148,23 @@ def _fn_files():
     return {"coq": text, "translated": done, "refused": failed}
 
 
+@unit("fn_sir3")
+def _fn_sir3():
+    """AsNumberAnonymizer.__init__ with _generate_as_number_regex and _generate_as_number_replacement_map: the pattern text handed to re.compile
+    (uninterpreted) and the replacement map, built by the translated _generate_as_number_replacement"""
+    import os
+
+    sys.path.insert(0, os.path.dirname(os.path.abspath(__file__)))
+    import translate
+    import netconan.sensitive_item_removal as pm
+
+    text, done, failed = translate.translate_module(
+        pm.__file__, pm, wanted=[("AsNumberAnonymizer", "__init__"), ("AsNumberAnonymizer", "_generate_as_number_regex"),
+                                 ("AsNumberAnonymizer", "_generate_as_number_replacement_map"), ("AsNumberAnonymizer", "_generate_as_number_replacement")],
+        oracles=("re.compile",), external=("_generate_as_number_replacement",), requires=("G_fn_sir",))
+    return {"coq": text, "translated": done, "refused": failed}
+
+
 @unit("fn_files3")
 def _fn_files3():
     """FileAnonymizer.__init__: which anonymizers a set of options switches on and what each is given.  The constructors of the four anonymizer
